@@ -7,6 +7,7 @@ import Cellml.Units.Lemmas
     numeric exponents. -/
 
 set_option linter.constructorNameAsVariable false
+set_option linter.unusedSimpArgs false
 
 namespace Infer
 open Units PMap Spec
@@ -177,9 +178,9 @@ theorem traverse_var (i : Nat) : traverse reg Γ (.var i) = varQ Γ i := by
 
 /-- case split on one `Except` computation of the goal; the error case closes by `rfl` -/
 macro "exc " t:term : tactic =>
-  `(tactic| (cases $t:term with
-             | error err => first | rfl | simp [throw, throwThe, MonadExceptOf.throw]
-             | ok v => try simp only []))
+  `(tactic| (cases $t:term
+             (first | rfl | simp [throw, throwThe, MonadExceptOf.throw])
+             try simp only []))
 
 macro "trav_unfold" : tactic => `(tactic| simp only [traverse, trav, bind, Except.bind])
 macro "trav_done" : tactic =>
@@ -193,5 +194,140 @@ theorem traverse_mul (a b : E) : traverse reg Γ (.mul a b) =
   exc trav reg Γ a; rename_i la; exc finish reg la
   exc trav reg Γ b; rename_i lb; exc finish reg lb
   trav_done
+
+/-- the `Pow` branch on the two operand quantities -/
+def powStep (qb qx : M × Container) : Except UnitErr (M × Container) :=
+  if qx.2 ≠ [] then .error .mustBeDimensionless
+  else if !qx.1.isNumber then .error .mustBeNumber
+  else powM qb.1 qx.1 >>= fun m =>
+    if qb.2 = [] then .ok (m, [])
+    else match qx.1 with
+      | .num q _ => .ok (m, powC qb.2 q)
+      | _ => .error (.unsupported "exponent value not tracked")
+
+theorem traverse_pow (b x : E) : traverse reg Γ (.pow b x) =
+    (traverse reg Γ b >>= fun qb => traverse reg Γ x >>= fun qx => powStep qb qx) := by
+  trav_unfold
+  exc trav reg Γ b; rename_i lb; exc finish reg lb; rename_i qb
+  exc trav reg Γ x; rename_i lx; exc finish reg lx; rename_i qx
+  obtain ⟨mb, ub⟩ := qb
+  obtain ⟨mx, ux⟩ := qx
+  simp only [powStep, bind, Except.bind]
+  by_cases h1 : ux = []
+  · by_cases h2 : mx.isNumber = true
+    · cases hp : powM mb mx with
+      | error err => simp [h1, h2, hp, throw, throwThe, MonadExceptOf.throw, pure, Except.pure]
+      | ok m =>
+        by_cases h3 : ub = []
+        · simp [h1, h2, hp, h3, finish, throw, throwThe, MonadExceptOf.throw, pure, Except.pure]
+        · cases mx <;> simp [h1, h2, hp, h3, finish, throw, throwThe, MonadExceptOf.throw, pure, Except.pure]
+    · simp [h1, h2, throw, throwThe, MonadExceptOf.throw, pure, Except.pure]
+  · simp [h1, throw, throwThe, MonadExceptOf.throw, pure, Except.pure]
+
+theorem traverse_abs (a : E) : traverse reg Γ (.abs a) =
+    (traverse reg Γ a >>= fun q => pure (absM q.1, q.2)) := by
+  trav_unfold
+  exc trav reg Γ a; rename_i la; exc finish reg la
+  trav_done
+
+theorem traverse_floor (a : E) : traverse reg Γ (.floor a) =
+    (traverse reg Γ a >>= fun q => floorM false q.1 >>= fun m => pure (m, q.2)) := by
+  trav_unfold
+  exc trav reg Γ a; rename_i la; exc finish reg la; rename_i q
+  exc floorM false q.1
+  trav_done
+
+theorem traverse_ceil (a : E) : traverse reg Γ (.ceil a) =
+    (traverse reg Γ a >>= fun q => floorM true q.1 >>= fun m => pure (m, q.2)) := by
+  trav_unfold
+  exc trav reg Γ a; rename_i la; exc finish reg la; rename_i q
+  exc floorM true q.1
+  trav_done
+
+theorem traverse_ite (c t el : E) : traverse reg Γ (.ite c t el) =
+    (traverse reg Γ t >>= fun qt =>
+      if el = .undef then pure qt
+      else traverse reg Γ el >>= fun qe =>
+        if sameUnits reg qt.2 qe.2 then pure qt else .error .argsInvalidUnits) := by
+  trav_unfold
+  exc trav reg Γ t; rename_i lt; exc finish reg lt; rename_i qt
+  by_cases hu : el = .undef
+  · simp [hu, finish, pure, Except.pure]
+  · simp only [hu, if_false]
+    exc trav reg Γ el; rename_i le; exc finish reg le; rename_i qe
+    by_cases hs : sameUnits reg qt.2 qe.2 = true <;>
+      simp [hs, finish, pure, Except.pure, throw, throwThe, MonadExceptOf.throw]
+
+theorem traverse_rel (r : Rel) (a b : E) : traverse reg Γ (.rel r a b) =
+    (traverse reg Γ a >>= fun _ => traverse reg Γ b >>= fun _ => .error .boolean) := by
+  trav_unfold
+  exc trav reg Γ a; rename_i la; exc finish reg la
+  exc trav reg Γ b; rename_i lb; exc finish reg lb
+  trav_done
+theorem traverse_and (a b : E) : traverse reg Γ (.and a b) =
+    (traverse reg Γ a >>= fun _ => traverse reg Γ b >>= fun _ => .error .boolean) := by
+  trav_unfold
+  exc trav reg Γ a; rename_i la; exc finish reg la
+  exc trav reg Γ b; rename_i lb; exc finish reg lb
+  trav_done
+theorem traverse_or (a b : E) : traverse reg Γ (.or a b) =
+    (traverse reg Γ a >>= fun _ => traverse reg Γ b >>= fun _ => .error .boolean) := by
+  trav_unfold
+  exc trav reg Γ a; rename_i la; exc finish reg la
+  exc trav reg Γ b; rename_i lb; exc finish reg lb
+  trav_done
+theorem traverse_not (a : E) : traverse reg Γ (.not a) =
+    (traverse reg Γ a >>= fun _ => .error .boolean) := by
+  trav_unfold
+  exc trav reg Γ a; rename_i la; exc finish reg la
+  trav_done
+
+theorem traverse_deriv (v t : Nat) : traverse reg Γ (.deriv v t) =
+    (varQ Γ v >>= fun qv => varQ Γ t >>= fun qt => divM qv.1 qt.1 >>= fun m => pure (m, divC qv.2 qt.2)) := by
+  trav_unfold
+  exc varQ Γ v; rename_i qv
+  exc varQ Γ t; rename_i qt
+  exc divM qv.1 qt.1
+  trav_done
+
+/-- the one-argument function branch on the operand quantity -/
+def fn1Step (f : String) (q : M × Container) : Except UnitErr (M × Container) :=
+  if f == "log" || f == "factorial" then
+    if isDimless reg q.2 then .ok dimless1 else .error .mustBeDimensionless
+  else if f == "exp" then
+    if isDimless reg q.2 then
+      match q.1 with
+      | .num v true => if v > 709 then .error (.otherException "OverflowError") else .ok (.anynum, [])
+      | .anynum => .ok (.anynum, [])
+      | .weird => .ok (.anynum, [])
+      | _ => .ok dimless1
+    else .error .mustBeDimensionless
+  else if Cellml.Gen.trigFunctions.contains f then
+    if isDimless reg q.2 then .ok dimless1 else .error .mustBeDimensionless
+  else if isDimless reg q.2 then .ok dimless1
+  else .error .unexpectedMath
+
+theorem traverse_fn1 (f : String) (a : E) : traverse reg Γ (.fn1 f a) =
+    (traverse reg Γ a >>= fun q => fn1Step reg f q) := by
+  trav_unfold
+  exc trav reg Γ a; rename_i la; exc finish reg la; rename_i q
+  obtain ⟨m, u⟩ := q
+  simp only [fn1Step]
+  repeat' split
+  all_goals simp_all [finish, pure, Except.pure, throw, throwThe, MonadExceptOf.throw]
+
+/-- a successful one-argument function: the argument was accepted, has dimension zero, the result is dimensionless -/
+theorem fn1Step_ok (f : String) (q r : M × Container) (h : fn1Step reg f q = .ok r) :
+    isDimless reg q.2 = true ∧ r.2 = [] := by
+  simp only [fn1Step] at h
+  repeat' split at h
+  all_goals simp_all [dimless1]
+  all_goals (cases h; simp)
+
+theorem fn1Step_error (f : String) (q : M × Container) (err : UnitErr) (h : fn1Step reg f q = .error err) :
+    err = .mustBeDimensionless ∨ err = .unexpectedMath ∨ (f = "exp" ∧ err = .otherException "OverflowError") := by
+  simp only [fn1Step] at h
+  repeat' split at h
+  all_goals simp_all
 
 end Infer
